@@ -698,6 +698,20 @@ func (a *abortAfterFirstWrite) Read(b []byte) (int, error) {
 	return a.Conn.Read(b)
 }
 
+// stopGuarded calls Stop and gives up waiting after 15 s: a Stop that does not return is a finding, not a reason for the run to hang
+var errStopHangs = errors.New("Stop did not return within 15 s")
+
+func stopGuarded(srv interface{ Stop() error }) error {
+	done := make(chan error, 1)
+	go func() { done <- srv.Stop() }()
+	select {
+	case err := <-done:
+		return err
+	case <-time.After(15 * time.Second):
+		return errStopHangs
+	}
+}
+
 // ---------------------------------------------------------------- C19: churn
 type churnResult struct {
 	Mode           string         `json:"mode"`
@@ -927,8 +941,14 @@ func modeChurn(args []string) {
 			settle(func() bool { return len(s.srv.Conns()) == 0 }, 4*time.Second)
 			res.RegistryAfter = len(s.srv.Conns())
 		}
-		if err := s.srv.Stop(); err != nil {
+		if err := stopGuarded(s.srv); err != nil {
 			res.StopErr = err.Error()
+			if err == errStopHangs {
+				res.Note = "Stop did not return within 15 s"
+				emit(res)
+				out.Flush()
+				os.Exit(0) // the server is wedged: nothing more can be learnt from this process
+			}
 		}
 		if stopWithOpen {
 			res.RegistryAfter = len(s.srv.Conns())
@@ -1085,7 +1105,13 @@ func runLife(p *pki, cfg, seq string) (lifeObs, bool) {
 					checkServing(tag + " (Start on a running server returned an error)")
 				}
 			case 'X':
-				err := s.srv.Stop()
+				err := stopGuarded(s.srv)
+				if err == errStopHangs {
+					o.Problems = append(o.Problems, tag+": Stop did not return within 15 s")
+					emit(o)
+					out.Flush()
+					os.Exit(0)
+				}
 				o.Steps = append(o.Steps, fmt.Sprintf("X:%v", err == nil))
 				running = false
 				if err != nil {
